@@ -198,20 +198,21 @@ func TestVerif_C25_Streamer(t *testing.T) {
 	rec := vstat.New(t, "C25", "streamer",
 		"1..8 (thorough ..20) requests of 1..5 statements (insert/multi-row insert/update/delete over t1,t2), tx or not, Execute or unified Request, applied to a real DB with the CDCStreamer hooks registered as the Store does and Reset(index) before each; with failing statements (constraint violations, syntax errors) at any position and the rollback hook registered; non-trivial = some non-transactional request has >=2 statements that change rows, or a failing statement plus one that changes rows; distinct by the request list")
 	rapid.Check(t, func(rt *rapid.T) {
+		defer c25sRecoverInfra(rec, t)
 		reqs := c25sGen(rt)
 		dir, err := os.MkdirTemp("", "c25s-")
 		if err != nil {
-			rt.Skip("tempdir")
+			c25sInfra("tempdir")
 		}
 		defer os.RemoveAll(dir)
 		d, err := Open(filepath.Join(dir, "db.sqlite"), false, true)
 		if err != nil {
-			rt.Skip("open")
+			c25sInfra("open")
 		}
 		defer d.Close()
 		model, err := vsql.OpenMem()
 		if err != nil {
-			rt.Skip("model")
+			c25sInfra("model")
 		}
 		defer model.Close()
 		schema := []string{
@@ -225,7 +226,7 @@ func TestVerif_C25_Streamer(t *testing.T) {
 			return &command.Request{Statements: ss, Transaction: tx}
 		}
 		if _, err := d.Execute(mk(schema, true), false); err != nil {
-			rt.Skip("schema")
+			c25sInfra("schema")
 		}
 		for _, s := range schema {
 			if _, err := model.Exec(s); err != nil {
@@ -354,4 +355,22 @@ func TestVerif_C25_Streamer(t *testing.T) {
 				c.Index, c.Op, c.Table, c.RowID, c.Stmt+1, c.Index, at, found, canon, strings.Join(gs, " ")))
 		}
 	})
+}
+
+// c25sInfraSkip unwinds a case that hit infrastructure trouble (a store that did
+// not come up, a request that could not be served): the case is counted as
+// inconclusive, it is neither a pass nor a violation.
+type c25sInfraSkip struct{ why string }
+
+func c25sInfra(why string) { panic(c25sInfraSkip{why}) }
+
+func c25sRecoverInfra(rec *vstat.Rec, t *testing.T) {
+	if r := recover(); r != nil {
+		if s, ok := r.(c25sInfraSkip); ok {
+			rec.Label("inconclusive:infrastructure")
+			t.Logf("inconclusive (infrastructure): %s", s.why)
+			return
+		}
+		panic(r)
+	}
 }
